@@ -30,3 +30,5 @@ mod polynomial;
 mod prng;
 pub mod topology;
 pub mod vdaf;
+#[cfg(feature = "verif-hooks")]
+pub mod verif_hooks;
